@@ -132,3 +132,68 @@ func zzRestartScan(e *zzEnv, got, H uint64, hAt, dAt []uint64, P []*zzSlot) {
 		}
 	}
 }
+
+// ZZ_C02_clean_restart: delivery interrupted by a clean stop.  Any subset of
+// the four parts of the proposer's next two blocks is delivered, the node is
+// stopped cleanly (the real SaveCache writes the caches), started again (real
+// NewManager, which loads them), and the remaining parts -- optionally also
+// the earlier ones again -- are delivered.  The node ends exactly at the
+// proposer's chain: nothing that arrived before the stop is forgotten or
+// wrongly remembered as done.  (Cache files through the gob model, DESIGN 9.1.)
+func ZZ_C02_clean_restart() {
+	zzsym.FreezeClock()
+	zzsym.FreezeTimers()
+	e, m, ex, H, P, roots := zzFullNode(2)
+	equalTxs := len(P[0].data.Txs) > 0 && len(P[1].data.Txs) > 0 && bytes.Equal(P[0].data.Txs[0], P[1].data.Txs[0])
+	zzsym.Assume(!equalTxs) // equal tx lists: known finding C02-K1
+	hAt, dAt := []uint64{5, 6}, []uint64{9, 8}
+	first := []bool{zzsym.Bool("early"), zzsym.Bool("early"), zzsym.Bool("early"), zzsym.Bool("early")} // h1 h2 d1 d2
+	again := zzC02Redeliver && zzsym.Bool("redeliver-early-parts")
+	offer := func(m *Manager, phase int) {
+		for k := 0; k < 2; k++ {
+			if (phase == 1) == first[k] || (phase == 2 && again) {
+				m.headerInCh <- NewHeaderEvent{zzCopyHeader(P[k].header), hAt[k]}
+			}
+		}
+		for k := 0; k < 2; k++ {
+			if len(P[k].data.Txs) == 0 {
+				continue
+			}
+			if (phase == 1) == first[2+k] || (phase == 2 && again) {
+				m.dataInCh <- NewDataEvent{zzCopyData(P[k].data), dAt[k]}
+			}
+		}
+	}
+	run := func(m *Manager) {
+		ctx, cancel := context.WithCancel(context.Background())
+		errCh := make(chan error, 4)
+		zzsym.OnIdle(cancel)
+		m.SyncLoop(ctx, errCh)
+		cancel()
+		zzsym.Assert(len(errCh) == 0, "genuine-traffic-never-stops-sync")
+		zzsym.Assert(len(m.headerInCh) == 0 && len(m.dataInCh) == 0, "all-events-consumed")
+	}
+	offer(m, 1)
+	run(m)
+	mid := e.store.height
+	zzsym.Assert(m.SaveCache() == nil, "clean-stop-saves-the-caches")
+	e.store = e.store.reopen()
+	m2, err := NewManager(context.Background(), nil, e.cfg, e.gen, e.store, ex, e.seq, nil, m0logger(), nil, nil, e.hb, e.db, NopMetrics(), 1, 1, DefaultManagerOptions())
+	zzsym.Assert(err == nil, "restart-after-clean-stop")
+	if err != nil {
+		return
+	}
+	zzsym.Assert(e.store.height == mid, "restart-keeps-the-chain-height")
+	offer(m2, 2)
+	run(m2)
+	zzsym.ObserveU64("applied-before-stop", mid-H)
+	zzsym.Assert(e.store.height == H+2, "applies-every-block-whose-parts-all-arrived")
+	zzsym.Assert(len(ex.calls) == 2, "executes-each-applied-block-once")
+	for k := 0; k < 2; k++ {
+		sl := e.store.blocks[H+uint64(k)+1]
+		zzsym.Assert(sl != nil && bytes.Equal(sl.header.Hash(), P[k].header.Hash()), "same-header-hash-as-proposer")
+		zzsym.Assert(sl != nil && zzTxsEqual(sl.data.Txs, zzRaw(P[k].data.Txs)), "same-transactions-as-proposer")
+	}
+	zzsym.Assert(bytes.Equal(m2.lastState.AppHash, roots[1]) && m2.lastState.LastBlockHeight == H+2, "same-state-root-as-proposer")
+	zzsym.Reach("converged-after-clean-restart")
+}
